@@ -68,9 +68,13 @@ def build_project(seed, flat=False, nfiles=None):
             if i:
                 L += [f"call gen_{i - 1}(1)", f"call spec_{i - 1}_0(1)"]
             L += [f"call helper_{sx}(a)" if j == 0 else "continue", f"end subroutine {s}"]
+        if i:
+            # equally named procedures of several modules that use the same module themselves: equal labels in its used-by graph / table
+            L += ["subroutine shared_init()", doc(), f"use dm{sx}_0, only: base_0", "type(base_0) :: z", "end subroutine shared_init"]
         L.append(f"end module {m}")
         d = "" if flat else rng.choice(["", "a", "b", "c/d"])
         files[os.path.join(d, f"dmod{i}.f90")] = "\n".join(L) + "\n"
+    files["shared_user.f90"] = f"module su{sx}\n{doc()}\nimplicit none\ncontains\nsubroutine shared_init()\n{doc()}\nuse dm{sx}_0, only: base_0\ntype(base_0) :: z\nend subroutine shared_init\nend module su{sx}\n"
     # two files that define a module of the same name (alternative implementations), both used
     if rng.random() < 0.6:
         tags = list(tags) + ["same_module_name_in_two_files"]
@@ -109,7 +113,7 @@ def write_project(root, files, seed, opts_extra, name="Determinism", pages=True)
     if pages:
         pd = os.path.join(proj, "pages")
         os.makedirs(os.path.join(pd, "sub"), exist_ok=True)
-        open(os.path.join(pd, "index.md"), "w").write("title: Top page\n\nText. [[gen_0]] and [[dup]]\n")
+        open(os.path.join(pd, "index.md"), "w").write("title: Top page\nordered_subpage: gamma.md\n\nText. [[gen_0]] and [[dup]]\n")
         for n in ("alpha", "beta", "gamma"):
             open(os.path.join(pd, n + ".md"), "w").write(f"title: Page {n}\n\nText of {n}\n")
         open(os.path.join(pd, "sub", "index.md"), "w").write("title: Sub\n\nText\n")
@@ -158,7 +162,7 @@ def run(proj, hashseed="0", scan=None, timeout=600, noise=0, malloc=None):
         env["PYTHONMALLOC"] = malloc
     if scan is not None:
         env["VF_SCAN_ORDER"] = str(scan)
-        env["VF_SCAN_ROOT"] = os.path.join(proj, "src")
+        env["VF_SCAN_ROOT"] = proj  # sources, page directory, media
     return site.run_cli(proj, env=env, timeout=timeout)
 
 
@@ -196,6 +200,8 @@ def project_setup(seed, kind, root):
         opts_extra["externalize"] = True
     if rng.random() < 0.3:
         opts_extra["sort"] = rng.choice(["src", "permission", "permission-alpha", "type", "type-alpha"])
+    if rng.random() < 0.5:
+        opts_extra["graph_maxnodes"] = rng.choice([1, 2, 3])  # small limit: graphs are rendered as tables
     if rng.random() < 0.35:
         # several external projects that document equally named modules (which the project uses)
         opts_extra["external"] = {"liba": "./ext/liba", "libb": "./ext/libb", "libc": "./ext/libc"}
